@@ -189,7 +189,22 @@ def run(ctx):
             ctx.notes.append("stopped early on time budget")
             break
         k = i % 5
-        if k == 0 and i % 15 == 0:
+        if k == 0 and i % 30 == 15:
+            # $variable references of every shape (dotted paths through definitions and scopes, anchored, malformed) in a
+            # source that is then merged and extracted
+            refs = ["$a", "$(a)", "$(a.b)", "$(a.b.c)", "$(s.h)", "$(s.h.x)", "$(s)", "$(s.m.u)", "$(.a)", "$(.s.h)", "$(.)",
+                    "$(a.)", "$()", "$zz", "$(zz.a)", "$(x1)", "$(x1.y)", "pre$(a.b)", '"$(a.b) z"', "'$(a.b)'", "$a$b", "$(s.a)",
+                    "$(b.b)", "$(g.x)", "$(c.1)", "$$a", "$(a b)", "\\$a"]
+            lines = []
+            for _ in range(rng.randint(1, 4)):
+                name = rng.choice(["a", "b", "c", "g", "x1", "s.h", "s.i", "s.k", "x1.y", "s.x1"])
+                val = rng.choice(refs) if rng.random() < 0.7 else rng.choice(["1", "2", "t", "True"])
+                lines.append("%s = %s\n" % (name, val))
+            if rng.random() < 0.3:
+                lines.insert(rng.randint(0, len(lines)), "s {\n  h = %s\n}\n" % rng.choice(refs))
+            text = "".join(lines)
+            ctx.count("variable_sources")
+        elif k == 0 and i % 15 == 0:
             # a switched-off region that runs into the end of the text in every possible way
             text = (rng.choice(["", "a = 1\n", "s {\n"]) + "#phil __OFF__" + rng.choice(["\n", " \n", "\nx = 'junk\n", "\n\n"])
                     + rng.choice(["", "junk {\n", "#phil x\n"])
